@@ -56,6 +56,18 @@ KindDepth(k) ==
       [] k \in {"Polygon", "MultiLineString"} -> 3
       [] k = "MultiPolygon" -> 4
 
+(***************************************************************************)
+(* Containers.  A structure is nested sequences; where Python containers   *)
+(* are handed over (constructor, dict, attribute object -- JSON text has   *)
+(* arrays only) the same structure can be built from lists or from tuples. *)
+(* Validity, normal form and equality are about the numbers and their      *)
+(* nesting, not about the container type, so every case is also built:     *)
+(*   "tuple": every level a tuple;  "inner": a list of tuples (every level *)
+(*   below the outermost one);  "outer": a tuple of lists.                 *)
+(* Exported with every case; the binder builds each variant that differs.  *)
+(***************************************************************************)
+Containers == <<"list", "tuple", "inner", "outer">>
+
 (* ------------------------------ the parser ------------------------------ *)
 Delta(t) == IF t = OPEN THEN 1 ELSE IF t = CLOSE THEN -1 ELSE 0
 \* bracket depth after each of the tokens lo..hi, given the depth before lo (divide and conquer: recursion
@@ -74,10 +86,13 @@ IsScalar(s) == Len(s) = 1
 IsList(s)   == Len(s) >= 2
 Ord(S) == [k \in 1..Cardinality(S) |-> CHOOSE x \in S : Cardinality({y \in S : y < x}) = k - 1]
 \* the children of a list node, each again a token string: the k-th child runs from the k-th position whose
-\* predecessor is at depth 1 to the k-th position that returns to depth 1
+\* predecessor is at depth 1 to the k-th position that returns to depth 1 (linear: structures may have hundreds of points)
 Kids(s) == LET d  == Depths(s)
-               st == Ord({p \in 2..(Len(s) - 1) : d[p - 1] = 1 /\ s[p] # CLOSE})
-               en == Ord({q \in 2..(Len(s) - 1) : d[q] = 1})
+               ix == [i \in 1..Len(s) |-> i]
+               IsStart(p) == p >= 2 /\ p <= Len(s) - 1 /\ d[p - 1] = 1 /\ s[p] # CLOSE
+               IsEnd(q)   == q >= 2 /\ q <= Len(s) - 1 /\ d[q] = 1
+               st == SelectSeq(ix, IsStart)
+               en == SelectSeq(ix, IsEnd)
            IN  [k \in 1..Len(st) |-> SubSeq(s, st[k], en[k])]
 \* the same, said declaratively (law ParserAgrees of MC_GeomValidate: both definitions coincide)
 Bal(s, j) == Cardinality({i \in 1..j : s[i] = OPEN}) - Cardinality({i \in 1..j : s[i] = CLOSE})
@@ -89,8 +104,10 @@ WellFormedDecl(s) ==
 KidStarts(s) == {p \in 2..(Len(s) - 1) : Bal(s, p - 1) = 1 /\ s[p] # CLOSE}
 KidEnd(s, p) == IF IsNum(s[p]) THEN p ELSE SetMin({q \in (p + 1)..(Len(s) - 1) : Bal(s, q) = 1})
 KidsDecl(s)  == LET ps == Ord(KidStarts(s)) IN [k \in 1..Len(ps) |-> SubSeq(s, ps[k], KidEnd(s, ps[k]))]
-RECURSIVE Flat(_)
-Flat(ks) == IF Len(ks) = 0 THEN <<>> ELSE Head(ks) \o Flat(Tail(ks))
+RECURSIVE FlatR(_, _, _)
+FlatR(ks, lo, hi) == IF lo > hi THEN <<>> ELSE IF lo = hi THEN ks[lo]
+                     ELSE LET mid == (lo + hi) \div 2 IN FlatR(ks, lo, mid) \o FlatR(ks, mid + 1, hi)      \* recursion depth log n
+Flat(ks) == FlatR(ks, 1, Len(ks))
 Wrap(ks) == <<OPEN>> \o Flat(ks) \o <<CLOSE>>                 \* list node with the given children
 Rev(q)   == [i \in 1..Len(q) |-> q[Len(q) + 1 - i]]
 \* the nested value itself (heterogeneous: only ever printed, never compared)
@@ -228,16 +245,18 @@ Impl(k, s) == LET t == TypeLayer(k, s) IN
 (*   [entry, num, res: "ok" (a geometry object came back) | "raise" |      *)
 (*    "other" (something else came back), exc: class name, verr: BOOLEAN   *)
 (*    (the exception is a ValueError, as pydantic.ValidationError is),     *)
+(*    cont: container variant, twin / dumpeq: "equal" | "differs" | "raise" *)
+(*    | "" (== with the list-built twin, == of the two model_dump()s),     *)
 (*    cls, tag, coords (tokens), eq: "equal" | "differs" | "raise" | "",   *)
 (*    cls2, coords2]                                                       *)
 (***************************************************************************)
 Clauses == {"AcceptValid", "RejectInvalid", "RaisesValidationError", "NormalForm", "NormalOfInput",
-            "ClassMatchesTag", "ModesAgree", "DumpRevalidateEqual",
+            "ClassMatchesTag", "ModesAgree", "DumpRevalidateEqual", "TwinEqual",
             "Drift/ImplOutcome"}       \* not a verdict: the code still is the chain transcribed in Impl (reported as MODEL-DRIFT)
 Acc(r) == r.res = "ok"
 \* what a run observed, without the name of the entry point (most runs of a case observe the same)
 Sig(r) == [res |-> r.res, verr |-> r.verr, cls |-> r.cls, tag |-> r.tag, coords |-> r.coords,
-           eq |-> r.eq, cls2 |-> r.cls2, coords2 |-> r.coords2]
+           eq |-> r.eq, cls2 |-> r.cls2, coords2 |-> r.coords2, twin |-> r.twin, dumpeq |-> r.dumpeq]
 Holds(cl, o) ==
     LET k == o.in.kind  s == o.in.toks  R == {Sig(o.out.runs[i]) : i \in DOMAIN o.out.runs} IN
     CASE cl = "AcceptValid"   -> ValidStrict(k, s) => \A r \in R : Acc(r)
@@ -250,5 +269,9 @@ Holds(cl, o) ==
       [] cl = "ClassMatchesTag" -> \A r \in R : Acc(r) => r.cls = k /\ r.tag = k
       [] cl = "ModesAgree"    -> \A r1, r2 \in R : Acc(r1) = Acc(r2) /\ r1.cls = r2.cls
       [] cl = "Drift/ImplOutcome" -> LET m == Impl(k, s) IN \A r \in R : (Acc(r) <=> m.ok) /\ (Acc(r) => r.coords = m.val)
+      \* the geometry built from the same numbers in plain lists through the same entry point is an equal geometry, with an
+      \* equal model_dump() (both follow from the dump round trip: the JSON text of either is the same text)
+      \* (observed for the tuple-built variants; "" on the list-built runs themselves)
+      [] cl = "TwinEqual" -> \A r \in R : (Acc(r) /\ r.twin # "") => r.twin = "equal" /\ r.dumpeq = "equal"
       [] cl = "DumpRevalidateEqual" -> \A r \in R : Acc(r) => r.eq = "equal" /\ r.cls2 = r.cls /\ r.coords2 = r.coords
 =============================================================================
